@@ -67,7 +67,9 @@ class Injector:
 
     def _armed(self):
         if not self.armed:
-            h = signal.getsignal(signal.SIGINT)
+            # injection starts once Conductor's handler for the injected signal is in place (before that the
+            # default disposition applies and no task exists yet)
+            h = signal.getsignal(self.sig)
             if getattr(h, "__module__", "") == "conductor.errors.signal":
                 self.armed = True
         return self.armed
@@ -290,8 +292,8 @@ def spaces(tier):
                 preset={"e0_1": False, "e0_2": True, "e1_2": True, "rev2": False, "p0": True, "p1": True, "p2": False,
                         "bad0": False, "bad1": False, "bad2": False, "k0": 0, "k1": 1, "k2": 0, "jobs": 1},
                 outside=["N>3", "jobs>2", "bytecode granularity", "points inside library calls"]),
-          Space("chain2-seq-fail", make(2, ("run_experiment",), 1, sigterm_bit=False),
-                "2 sequential experiments t0 <- t1, t0 may fail, SIGINT at every point", depth="marker",
+          Space("chain2-seq-fail", make(2, ("run_experiment",), 1, sigterm_bit=True),
+                "2 sequential experiments t0 <- t1, t0 may fail, SIGINT or SIGTERM at every point", depth="marker",
                 preset={"e0_1": True, "p0": False, "p1": False, "bad1": False})]
     if tier == "thorough":
         sp.append(Space("par3-j12-kinds", make(3, ("run_experiment", "run_command"), 2, sigterm_bit=False),
